@@ -144,3 +144,7 @@ def run(tier, seed):
                          extra={'builds': [v for v, _ in cfg.get('variants', [])] + (['miri'] if tier == 'thorough' else []),
                                 'trie_depth': {'{0,1,2}': cfg.get('d3'), '{-1,0,1,5}': cfg.get('d4')}, 'p_values': PS,
                                 'monotone_tracking': mono})
+
+
+def rejudge(case, recs, res, variant, v):
+    res.merge(qrun.rejudge_quantile(case, recs, variant).r5)
